@@ -136,6 +136,8 @@ CHECKS["C01"] = {
          "extra_overlay": {"internal/response/zz_verif_decode.go": "internal/response/zz_verif_decode.go"},
          "params": {"quick": grid(k=[2, 3]), "thorough": grid(k=[4])},
          "cover": ["own-store", "own-fetch", "own-plain", "update-delivered"]},
+        {"name": "idlebulk", "pkg": "internal/session", "pkgname": "session", "entry": "VerifC01IdleBulk", "files": ["zz_verif_c01idle.go"],
+         "params": {"quick": [{}], "thorough": [{}]}, "cover": ["idle-bulk"]},
     ],
     "stubs": ["state.UserInterface -> verifUser (applies updates to the originating state immediately, queues for the others)", "db.Client/Transaction -> verifMiniDB (only ClearRecentFlagInMailboxOnMessage; any other call = stub missing)", "logrus -> no-op"],
     "outside": ["wire rendering (String() via fmt)", "the goroutine forwarding idleCh to the socket", "concurrency between sessions (covered as arbitrary orders of queued responders)", "histories longer than k / views larger than n"],
